@@ -198,7 +198,9 @@ D(x) == Dev = x
 Init == /\ mol \in Mols /\ pc = "start" /\ out = <<>> /\ secs = {} /\ cur = "" /\ groups = <<>> /\ pend = <<>>
         /\ gopen = NoGuard /\ late = FALSE /\ rd = R0 /\ ri = 1
 Emit(ls) == out' = out \o ls
-WriteHeader == /\ pc = "start" /\ Emit(HeaderLines(mol)) /\ pc' = "atoms"
+\* DevNoFile (repaired finding F1): the writer fails while it assembles the header, nothing is written
+WriteHeader == /\ pc = "start"
+               /\ IF D("noFile") THEN pc' = "written" /\ UNCHANGED out ELSE Emit(HeaderLines(mol)) /\ pc' = "atoms"
                /\ UNCHANGED <<mol, secs, cur, groups, pend, gopen, late, rd, ri>>
 \* DevNoResid: the residue id column is not taken from the atom (every atom gets 1)
 AtomRowI(i) == LET r == AtomRow(mol, i) IN IF D("noResid") THEN [r EXCEPT !.t[3] = "1"]
